@@ -92,16 +92,18 @@ Theorem C12_retry_is_function_of_stream : forall ops s,
 Proof. exact run_retry_spec. Qed.
 Print Assumptions C12_retry_is_function_of_stream.
 
-Theorem C12_chunking : forall mx rs1 rs2 n1 n2 sc1 sc2 ops,
+(* ... whatever the recvsize settings and whether or not the sockets have a timeout (deadline expiry only
+   adds Timeouts, which the retrying caller absorbs) *)
+Theorem C12_chunking : forall mx rs1 rs2 d1 d2 n1 n2 sc1 sc2 ops,
   wf_net n1 = true -> wf_net n2 = true -> 1 <= rs1 -> 1 <= rs2 ->
   flat n1 = flat n2 -> forallb is_det_op ops = true ->
-  run_retry (bs_init mx rs1 n1 sc1) ops = run_retry (bs_init mx rs2 n2 sc2) ops.
+  run_retry (bs_init_dl mx rs1 d1 n1 sc1) ops = run_retry (bs_init_dl mx rs2 d2 n2 sc2) ops.
 Proof. exact chunking_independent. Qed.
 Print Assumptions C12_chunking.
 
-Theorem C12_same_as_at_once : forall mx rs n ops,
+Theorem C12_same_as_at_once : forall mx rs d n ops,
   wf_net n = true -> 1 <= rs -> forallb is_det_op ops = true ->
-  run_retry (bs_init mx rs n []) ops = run_retry (bs_init mx rs (at_once (flat n)) []) ops.
+  run_retry (bs_init_dl mx rs d n []) ops = run_retry (bs_init_dl mx rs d (at_once (flat n)) []) ops.
 Proof. exact same_as_at_once. Qed.
 Print Assumptions C12_same_as_at_once.
 
